@@ -623,6 +623,23 @@ impl LocalTimeType {
     }
 }
 
+#[cfg(feature = "verif-hooks")]
+impl TimeZone {
+    /// The parts of the zone (verification accessor): transitions as (time, type index),
+    /// local time types, leap seconds as (time, correction), extra rule.
+    #[allow(clippy::type_complexity)]
+    pub(super) fn verif_parts(
+        &self,
+    ) -> (Vec<(i64, usize)>, &[LocalTimeType], Vec<(i64, i32)>, Option<&TransitionRule>) {
+        (
+            self.transitions.iter().map(|t| (t.unix_leap_time, t.local_time_type_index)).collect(),
+            &self.local_time_types,
+            self.leap_seconds.iter().map(|l| (l.unix_leap_time, l.correction)).collect(),
+            self.extra_rule.as_ref(),
+        )
+    }
+}
+
 /// Open the TZif file corresponding to a TZ string
 fn find_tz_file(path: impl AsRef<Path>) -> Result<File, Error> {
     // Don't check system timezone directories on non-UNIX platforms
